@@ -89,9 +89,10 @@ CLAIMS = {
  "C16": ("Three theorems (Props/C16.v): the dictionaries of a built machine are exactly the (name, size) pairs of the headers, per side; a "
          "file declaring a contig with two sizes never yields a machine; every returned coordinate is at most the reported size of its contig. "
          "Tied to the code on generated files incl. shared names across sides and redeclared sizes.", "DESIGN.md 5 (C16)"),
- "C17": ("Three theorems (Props/C17.v): for every history of reader operations the reads consumed by the operations, in order, followed by "
+ "C17": ("Five theorems (Props/C17.v): for every history of reader operations the reads consumed by the operations, in order, followed by "
          "what is left, are the stream (every line observed exactly once); single-line methods advance by one line; yielding a section consumes "
-         "nothing beyond its terminating line. Tied to the code by random operation histories with the underlying cursor position observed after "
+         "nothing beyond its terminating line; at the byte level the counts the raw reads report add up to the input length under every chunking "
+         "and the first k reads consumed exactly the first k raw lines. Tied to the code by random operation histories with the underlying cursor position observed after "
          "every operation.", "DESIGN.md 5 (C17)"),
  "C18": ("Partial. Two theorems (Props/C18.v): for read-only clients of one shared machine every schedule yields per thread exactly the "
          "sequential answers (schedule independence). The premise (a liftover step writes nothing shared) is checked on the code: compile-time "
